@@ -62,7 +62,11 @@ VARIANTS = [
       "            self.num_point_array.append(self.get_total_num_points())"),
     V("C13-n06-error-via-square-root", "neutral",
       "        return LA.norm(abs(first_value - second_value), norm)", "        return abs(LA.norm(first_value - second_value, norm))", file="GridOperation.py"),
+    # generic state rules (sa/statecheck.py)
+    V("C13-b50-norm-argument-dropped", "break", "        self.norm = norm\n        self.margin = 0.9\n", "        self.norm = 2\n        self.margin = 0.9\n", "C13.S3",
+      file="spatiallyAdaptiveBase.py"),
+    V("C13-n50-norm-through-helper", "neutral", None, None, edits=[
+        {"file": "spatiallyAdaptiveBase.py", "old": "        self.norm = norm\n        self.margin = 0.9\n",
+         "new": "        self._set_norm(norm)\n        self.margin = 0.9\n"},
+        {"file": "spatiallyAdaptiveBase.py", "old": "    def init_adaptive_combi(self,", "new": "    def _set_norm(self, norm_):\n        self.norm = norm_\n\n    def init_adaptive_combi(self,"}]),
 ]
-for v in VARIANTS:
-    if v.get("old") is None:
-        v.pop("old"); v.pop("new"); v.pop("file")
